@@ -608,6 +608,11 @@ func runNotifierGated(t *testing.T, job *hnJob, out *ndjson, st *tlStats, hp *hn
 			r.cands = append(r.cands, c)
 			r.pairs = append(r.pairs, &ice.CandidatePair{})
 		}
+		if job.Alias {
+			// the candidate stream then reads A, nil, A: the end-of-candidates marker of one gather cycle between two candidates
+			// (what a Restart with a slow handler produces); nil is an event of the stream like any other
+			r.cands[2] = nil
+		}
 		r.n = ice.VerifNewNotifier(
 			func(cs ice.ConnectionState) { r.handler(r.eventOf(r.csBack(cs))) },
 			func(c ice.Candidate) { r.handler(r.eventOf(slices.Index(r.cands, c))) },
